@@ -202,11 +202,54 @@ def run_shard(sh):
             rec.case(cls, cls == "nonempty", sample=[s, lid])
             for v in viols:
                 rec.violation(v["signature"], "search-list", [s, lid], v["observed"], v["expected"])
+    if sh["index"] == 0:
+        for v in overflow_pass(ref, LISTS, sh["tier"]):
+            rec.violation(v["signature"], "overflow", v["case"], v["observed"], v["expected"])
+        rec.case("overflow-pass", True)
     rec.extra = {"lists": {k: len(v[0]) for k, v in LISTS.items()}}
     return rec.result()
 
 
+def overflow_pass(ref, LISTS, tier, n=60, cap=16):
+    """More distinct searches than the caches hold (capacity lowered to 16), then every one of them asked again: the
+    answers of the second round equal those of the first (whose cases the main family judges one by one)."""
+    from spil import FindInList
+    from mc import env
+    lid = sorted(LISTS)[0]
+    L, opts = LISTS[lid]
+    S = []
+    for s in gen(ref, tier):
+        if s not in S and "?" not in s:
+            S.append(s)
+        if len(S) >= n:
+            break
+    env.reset()
+    env.set_cache_capacity(cap)
+    out = []
+    try:
+        def ask(s):
+            try:
+                return sorted(FindInList(list(L), **opts).find(s, as_sid=False))
+            except Exception as e:  # noqa
+                return "EXC " + type(e).__name__
+        first = [ask(s) for s in S]
+        second = [ask(s) for s in S]
+        third = [ask(s) for s in reversed(S)][::-1]
+        for s, a, b, c in zip(S, first, second, third):
+            if not (a == b == c):
+                out.append(dict(signature="answer-changes-after-cache-overflow", case=[s, lid], observed=[b if b != a else c][0], expected=a))
+                break
+    finally:
+        env.set_cache_capacity(None)
+        env.reset()
+    return out
+
+
 def replay_case(kind, case):
+    if kind == "overflow":
+        from mc.ref.model import Conf
+        ref = Conf()
+        return [dict(v) for v in overflow_pass(ref, lists(ref, "thorough"), "quick")]
     from mc.ref.model import Conf
     ref = Conf()
     return check_case(ref, case, lists(ref, "quick") if case[1] in lists(ref, "quick") else lists(ref, "thorough"))[0]
